@@ -247,12 +247,15 @@ func (p *ServerProcessor) OnComplete(parser *Parser) {
 		keepAlive := false
 	CONNECTION_VALUES:
 		for _, v := range request.Header["Connection"] {
-			switch strings.ToLower(strings.Trim(v, " ")) {
-			case "close":
-				hasClose = true
-				break CONNECTION_VALUES
-			case "keep-alive":
-				keepAlive = true
+			// the value is a list of tokens: "keep-alive, close", "close, TE".
+			for _, token := range strings.Split(v, ",") {
+				switch strings.ToLower(strings.Trim(token, " \t")) {
+				case "close":
+					hasClose = true
+					break CONNECTION_VALUES
+				case "keep-alive":
+					keepAlive = true
+				}
 			}
 		}
 		if request.ProtoMajor == 1 && request.ProtoMinor == 0 {
